@@ -114,3 +114,9 @@ PROPS["C08"] = dict(
     level_note="Bounded parts are labelled bounded and never counted among discharged obligations. Observation (not a finding): a DNS SAN with more than one wildcard rejects the whole certificate even if a later entry matches exactly.",
     technique="contract-based deductive verification (VCs from the real AST, z3) for match_hostname's dispatch + exhaustive bounded contract checks of _dnsname_match / match_hostname / assert_fingerprint",
 )
+
+PROPS["C10"] = dict(
+    contracts=["http2"],
+    trusted_base=COMMON_TRUSTED, assumptions=[], not_decided=[],
+    level_text="x", level_note="x",
+)
